@@ -63,6 +63,43 @@ theorem bind_atomic (s : St) (id : Nat) (h : (bind s id).code ≠ Err.invalidDis
     | exact report_atomic _ _ _ rfl
     | (exfalso; simp_all [report])
 
+/-- `align` never touches the label table -/
+theorem align_labels (s : St) (m a : Nat) : (align s m a).st.labels = s.labels := by
+  simp only [align]
+  repeat' split
+  all_goals simp [done, report, appendBytes]
+
+/-- binding an existing, unbound label can only fail with `kInvalidDisplacement` -/
+theorem bind_code_of_unbound (s : St) (id : Nat) (le : LabelEntry) (h1 : s.labels[id]? = some le) (h2 : le.bound = none) :
+    (bind s id).code = Err.ok ∨ (bind s id).code = Err.invalidDisplacement := by
+  simp only [bind, h1, h2]
+  repeat' split
+  all_goals simp_all [done, report]
+
+/-- `embed_const_pool` (with fix C14-12): atomic unless the `bind` inside it leaves through `kInvalidDisplacement` -/
+theorem embedConstPool_atomic (s : St) (id a : Nat) (d : Offset.Bytes)
+    (h : (embedConstPool s id a d).code ≠ Err.invalidDisplacement) : (embedConstPool s id a d).atomicOn s := by
+  unfold embedConstPool at h ⊢
+  split
+  · exact report_atomic _ _ _ rfl
+  · rename_i le hle
+    split
+    · exact report_atomic _ _ _ rfl
+    · rename_i hb
+      have hb' : le.bound = none := by cases hx : le.bound <;> simp_all
+      simp only [] at h ⊢
+      split
+      · rename_i hc
+        exact (align_atomic s 1 a).elim (fun h0 => absurd h0 hc) (fun h0 => Or.inr h0)
+      · split
+        · rename_i hc2
+          exfalso
+          have hl : (align s 1 a).st.labels[id]? = some le := by rw [align_labels]; exact hle
+          rcases bind_code_of_unbound _ id le hl hb' with h3 | h3
+          · exact hc2 h3
+          · simp_all
+        · exact done_atomic _ _
+
 /-- `new_section` fails without touching anything (and without the handler: it is a CodeHolder call) -/
 theorem newSection_code (s : St) (n a : Nat) : (newSection s n a).code = Err.ok ∨ (newSection s n a).st = s := by
   simp only [newSection]
@@ -98,6 +135,23 @@ theorem step_one_empty (s : St) (op : Op) (h : s.one = OneShot.empty) : (step s 
     simp only [embedLabelDelta]
     repeat' split
     all_goals simpa [done, report, appendBytes] using h
+  case embedConstPool id a d =>
+    have ha : (align s 1 a).st.one = OneShot.empty := by
+      simp only [align]
+      repeat' split
+      all_goals simpa [done, report, appendBytes] using h
+    have hb : ∀ t : St, t.one = OneShot.empty → (bind t id).st.one = OneShot.empty := by
+      intro t ht
+      simp only [bind]
+      repeat' split
+      all_goals simp_all [done, report, OneShot.empty]
+    simp only [embedConstPool]
+    repeat' split
+    all_goals first
+      | (simpa [done, report] using h)
+      | exact ha
+      | exact hb _ ha
+      | (simp only [done, appendBytes]; exact hb _ ha)
   case newSection n a =>
     simp only [newSection]
     repeat' split
